@@ -12,6 +12,7 @@ CONSTANTS Comp = "multi"
   NBuf = 0
   Gaps <- G_6_31
   Strict = TRUE
+  Busy = FALSE
   D = 6
 INIT Init
 NEXT Next
